@@ -586,14 +586,26 @@ def _positive(body, op, depth=6, use_bb=None):
 
 
 def w_shrinking_suffix(prog, body, h, blocks, par, mc):
-    var = None
+    """some &str variable (whatever it is called) is re-assigned to a strictly shorter suffix of itself on every cycle"""
+    cands = []
     for i, l in enumerate(body.locals):
-        if l.get("name") == par["var"] and l["ty"].startswith("&") and "str" in l["ty"]:
+        if l.get("name") and l["ty"].startswith("&") and "str" in l["ty"]:
             defs_in = [d for d in body.defs_of(i) if d[0] in blocks]
             if defs_in:
-                var = i
-    if var is None:
-        return False, f"no &str loop variable `{par['var']}` assigned inside the loop"
+                cands.append(i)
+    # the variable the reviewed source used comes first (its message is the most useful one)
+    cands.sort(key=lambda i: body.locals[i].get("name") != par.get("var"))
+    if not cands:
+        return False, "no &str loop variable is assigned inside the loop"
+    res = (False, "")
+    for var in cands:
+        res = _shrinking_suffix_of(body, h, blocks, dict(par, var=body.locals[var].get("name")), var)
+        if res[0]:
+            return res
+    return _shrinking_suffix_of(body, h, blocks, dict(par, var=body.locals[cands[0]].get("name")), cands[0])
+
+
+def _shrinking_suffix_of(body, h, blocks, par, var):
     # loop condition tests the variable for emptiness (or the loop breaks when nothing is found)
     # forward dataflow over the loop body
     state_in = {h: {var: SAME}}
